@@ -67,31 +67,35 @@ int splinetable_write_key(struct splinetable* table, splinetable_dtype type,
                           const char* key, const void* value);
 
 // Access to spline properties
+//
+// None of these can report a failure. Given a NULL handle or a handle without a
+// table (zero-initialized, after a failed readsplinefitstable(), or after
+// splinetable_free()) they return the value stated below instead of touching it.
 
-/// Number of dimensions
+/// Number of dimensions; 0 for a handle without a table
 uint32_t splinetable_ndim(const struct splinetable* table);
-/// Spline order in dimension \p dim
+/// Spline order in dimension \p dim; 0 for a handle without a table
 uint32_t splinetable_order(const struct splinetable* table, uint32_t dim);
-/// Number of knots in dimension \p dim
+/// Number of knots in dimension \p dim; 0 for a handle without a table
 uint64_t splinetable_nknots(const struct splinetable* table, uint32_t dim);
-/// Knot vector in dimension \p dim
+/// Knot vector in dimension \p dim; NULL for a handle without a table
 const double* splinetable_knots(const struct splinetable* table, uint32_t dim);
-/// Knot \p knot in dimenson \p dim
+/// Knot \p knot in dimenson \p dim; NaN for a handle without a table
 double splinetable_knot(const struct splinetable* table, uint32_t dim,
                         uint64_t knot);
-/// Lower extent of the spline's support in dimension \p dim
+/// Lower extent of the spline's support in dimension \p dim; NaN for a handle without a table
 double splinetable_lower_extent(const struct splinetable* table, uint32_t dim);
-/// Upper extent of the spline's support in dimension \p dim
+/// Upper extent of the spline's support in dimension \p dim; NaN for a handle without a table
 double splinetable_upper_extent(const struct splinetable* table, uint32_t dim);
-/// Period of the spline in dimension \p dim (currently unused)
+/// Period of the spline in dimension \p dim (currently unused); NaN for a handle without a table
 double splinetable_period(const struct splinetable* table, uint32_t dim);
-/// Number of splines along dimension \p dim
+/// Number of splines along dimension \p dim; 0 for a handle without a table
 uint64_t splinetable_ncoeffs(const struct splinetable* table, uint32_t dim);
-/// Total size of coefficient array
+/// Total size of coefficient array; 0 for a handle without a table (there is no array)
 uint64_t splinetable_total_ncoeffs(const struct splinetable* table);
-/// Stride of coefficient array in dimension \p dim
+/// Stride of coefficient array in dimension \p dim; 0 for a handle without a table
 uint64_t splinetable_stride(const struct splinetable* table, uint32_t dim);
-/// Coefficient array
+/// Coefficient array; NULL for a handle without a table
 const float* splinetable_coefficients(const struct splinetable* table);
 
 // Spline evaluation
@@ -102,7 +106,8 @@ const float* splinetable_coefficients(const struct splinetable* table);
 /// \param[out] centers indices of central splines
 /// \returns non-zero if \p x is within the partial support of the spline and
 ///          \p centers has been filled, 0 otherwise (the value of
-///          photospline::splinetable::searchcenters)
+///          photospline::splinetable::searchcenters); 0, with \p centers
+///          untouched, for a NULL handle or a handle without a table
 int tablesearchcenters(const struct splinetable* table, const double* x,
                        int* centers);
 
@@ -113,7 +118,8 @@ int tablesearchcenters(const struct splinetable* table, const double* x,
 /// \param[in] derivatives bitmask indicating which dimensions to differentiate
 /// 
 /// \pre \p centers has been filled via a call to tablesearchcenters()
-/// \returns the value of the spline surface (or one of its derivatives) at \p x
+/// \returns the value of the spline surface (or one of its derivatives) at \p x;
+///          NaN for a NULL handle or a handle without a table
 double ndsplineeval(const struct splinetable* table, const double* x,
                     const int* centers, int derivatives);
 
@@ -124,6 +130,9 @@ double ndsplineeval(const struct splinetable* table, const double* x,
 /// \param[in] evaluates storage for the evaluate and gradient (must have length at least ndim+1) 
 /// 
 /// \pre \p centers has been filled via a call to tablesearchcenters()
+/// \post if the evaluation fails every one of the ndim+1 entries of \p evaluates
+///       is NaN; a NULL handle or a handle without a table counts as having
+///       no dimensions, so only evaluates[0] is set (to NaN)
 void ndsplineeval_gradient(const struct splinetable* table, const double* x,
                            const int* centers, double* evaluates);
 
@@ -134,7 +143,8 @@ void ndsplineeval_gradient(const struct splinetable* table, const double* x,
 /// \param[in] derivatives order of derivative to calculate in each dimension
 /// 
 /// \pre \p centers has been filled via a call to tablesearchcenters()
-/// \returns the value of the spline surface (or one of its second derivatives) at \p x
+/// \returns the value of the spline surface (or one of its second derivatives) at \p x;
+///          NaN for a NULL handle or a handle without a table
 double ndsplineeval_deriv(const struct splinetable* table, const double* x,
                            const int* centers, const unsigned int *derivatives);
 
